@@ -284,3 +284,67 @@ func c08RunRes(in c08In) CaseOut {
 	return CaseOut{Coq: Pair(coqIn, App("C08.Build_obs", wire, goV, rs(1), rs(2), rs(3))), Tags: tl, Nontrivial: true,
 		Obs: map[string]string{"wire": wire, "go": goV, "note": note}}
 }
+
+// c08GenNullItems: map[K]*T, map[K]*[]T, map[K]*map[..] (and, wire side only, null list / map
+// items of non-pointer item types) with the nil item first, in the middle, last, alternating
+// and after several non-nil items. String keys are written in byte order, integer keys in the
+// order of their decimal text ("10" < "9"), so both orders are used for integer keys.
+func c08GenNullItems(add func(dir string, t c08T, v c08V, tag string)) {
+	null := c08V{Nil: true}
+	type item struct {
+		t    c08T
+		a, b c08V // two distinct non-nil Go values
+		wa   c08V // wire forms
+		wb   c08V
+	}
+	i64 := c08I64
+	items := []item{
+		{c08Ptr(i64), c08I(7), c08I(-9), c08I(7), c08I(-9)},
+		{c08Ptr(c08Str), c08Bs("x"), c08Bs("yy"), c08Bs("x"), c08Bs("yy")},
+		{c08Ptr(c08T{K: "bool"}), c08V{T: true}, c08V{T: false}, c08V{T: true}, c08V{T: false}},
+		{c08Ptr(c08ListT(i64)), c08L(c08I(1), c08I(2)), c08L(c08I(3)), c08L(c08I(1), c08I(2)), c08L(c08I(3))},
+		{c08Ptr(c08MapT(c08Str, i64)), c08L(c08Bs("k"), c08I(1)), c08L(c08Bs("q"), c08I(2)), c08L(c08Bs("k"), c08I(1)), c08L(c08Bs("q"), c08I(2))},
+		{c08Ptr(c08NamedStr("sv", "utf8")), c08Bs("high"), c08Bs("low"), c08Bs("high"), c08Bs("low")},
+		{c08Ptr(c08T{K: "int", G: "i32", A: "i32", M: "iv"}), c08I(5), c08I(-6), c08I(5), c08I(-6)},
+	}
+	ka, kb, kc, kd := c08Bs("a"), c08Bs("b"), c08Bs("c"), c08Bs("d")
+	for _, it := range items {
+		mt := c08StructT(c08MapT(c08Str, it.t))
+		shapes := func(a, b c08V) []c08V {
+			return []c08V{
+				c08L(ka, a, kb, null),                  // the seeded shape: nil after a non-nil item
+				c08L(ka, null, kb, a),                  // nil first
+				c08L(ka, a, kb, null, kc, b),           // nil in the middle
+				c08L(ka, a, kb, b, kc, null),           // nil last, after two non-nil
+				c08L(ka, a, kb, null, kc, null, kd, b), // runs of nils
+				c08L(ka, null, kb, a, kc, null, kd, b), // alternating
+			}
+		}
+		for _, sh := range shapes(it.a, it.b) {
+			add("g2w", mt, c08L(sh), "map-nil-item-order")
+		}
+		for _, sh := range shapes(it.wa, it.wb) {
+			add("w2g", mt, c08L(sh), "map-nil-item-order")
+		}
+		add("res", mt, c08L(shapes(it.a, it.b)[0]), "map-nil-item-order")
+		add("res", mt, c08L(shapes(it.a, it.b)[2]), "map-nil-item-order")
+		// integer keys: numeric and decimal-text orders differ for 9 / 10
+		it9 := c08StructT(c08MapT(i64, it.t))
+		add("g2w", it9, c08L(c08L(c08I(9), it.a, c08I(10), null)), "map-nil-item-order")
+		add("g2w", it9, c08L(c08L(c08I(9), null, c08I(10), it.a)), "map-nil-item-order")
+		add("w2g", it9, c08L(c08L(c08I(9), it.wa, c08I(10), null)), "map-nil-item-order")
+		add("w2g", it9, c08L(c08L(c08I(9), null, c08I(10), it.wa)), "map-nil-item-order")
+	}
+	// wire side only: NULL items of non-pointer item types (a peer may send them; the Go
+	// side keeps the zero value — here the empty collection / zero scalar)
+	for _, it := range []item{
+		{c08ListT(i64), null, null, c08L(c08I(1), c08I(2)), c08L(c08I(3))},
+		{c08MapT(c08Str, i64), null, null, c08L(c08Bs("k"), c08I(1)), c08L(c08Bs("q"), c08I(2))},
+		{i64, null, null, c08I(7), c08I(-9)},
+		{c08Str, null, null, c08Bs("x"), c08Bs("yy")},
+	} {
+		mt := c08StructT(c08MapT(c08Str, it.t))
+		add("w2g", mt, c08L(c08L(ka, it.wa, kb, null)), "map-null-plain-item")
+		add("w2g", mt, c08L(c08L(ka, it.wa, kb, null, kc, it.wb, kd, null)), "map-null-plain-item")
+	}
+}
